@@ -62,6 +62,7 @@ fn exec_query(img: &RuntimeMemoryImage, input: &Value) -> Value {
     let a64 = addr.try_to_u64().unwrap();
     // feature tag (counted / matched by known findings, never used to decide)
     let at_seg_end = img.memory_segments.iter().any(|s| s.base_address.wrapping_add(s.bytes.len() as u64) == a64);
+    let at_seg_base = img.memory_segments.iter().any(|s| s.base_address == a64);
     let mut k = "error".to_string();
     let mut v: Vec<u8> = Vec::new();
     let mut b = false;
@@ -112,7 +113,7 @@ fn exec_query(img: &RuntimeMemoryImage, input: &Value) -> Value {
         other => panic!("unknown query kind {}", other),
     }
     json!({"ev": "q", "q": q, "addr": input["addr"], "size": size, "end": input["end"],
-           "k": k, "v": v, "b": b, "i": i, "panic": panic, "at_seg_end": at_seg_end})
+           "k": k, "v": v, "b": b, "i": i, "panic": panic, "at_seg_end": at_seg_end, "at_seg_base": at_seg_base})
 }
 
 // ---------------------------------------------------------------------------------------------
